@@ -98,6 +98,12 @@ pub fn event(id: usize, c: &ConeSpec, s: &[f64], z: &[f64], x: &[f64], y: &[f64]
     put("w_winv", dist(&b.w_winv_x, x), norm(x));
     put("winv_w", dist(&b.winv_w_x, x), norm(x));
     put("wt_winvt", dist(&b.wt_winvt_x, x), norm(x));
+    // the general form out = alpha * op(x) + beta * out of both multiplications (the solver only ever uses beta = 0)
+    let wacc: Vec<f64> = (0..x.len()).map(|i| y[i] - b.wx[i]).collect();
+    put("mul_w_accumulates", dist(&b.w_acc, &wacc), norm(y) + norm(&b.wx));
+    let winvtx = { let r = catch_unwind(AssertUnwindSafe(|| verif::sym_cone_battery(&cc, s, z, y, x, sigma_mu, false))); r.map(|q| q.winvty.clone()).unwrap_or_default() };
+    let wiacc: Vec<f64> = (0..x.len()).map(|i| 2.0 * winvtx.get(i).copied().unwrap_or(f64::NAN) - y[i]).collect();
+    put("mul_winv_accumulates", dist(&b.winv_acc, &wiacc), norm(y) + 2.0 * norm(&winvtx));
     // transpose consistency: <W x, y> = <x, W^T y>, <W^-1 x, y> = <x, W^-T y>
     put("transpose_w", (dot(&b.wx, y) - dot(x, &b.wty)).abs(), norm(&b.wx) * norm(y) + norm(x) * norm(&b.wty));
     put("transpose_winv", (dot(&b.winvx, y) - dot(x, &b.winvty)).abs(), norm(&b.winvx) * norm(y) + norm(x) * norm(&b.winvty));
